@@ -123,6 +123,7 @@ func (r *Result) Failed() bool {
 func (r *Result) Progress() *views.ViewContext[views.ProgressData] {
 	r.mu.RLock()
 	defer r.mu.RUnlock()
+	verifhook.Yield("result.progress.locked")
 
 	return r.views.Progress(views.ProgressData{
 		Duration:                              r.duration(),
